@@ -4,6 +4,7 @@ import (
 	"bytes"
 	"errors"
 	"fmt"
+	"math"
 	"os"
 	"sync"
 	"time"
@@ -31,6 +32,8 @@ const DefaultCompactionInterval = 5 * time.Second
 const DefaultCompactionRatio = float32(0.2)
 const DefaultWriteBufferSizeBytes uint64 = 4 * 1024 * 1024 // 4Mb
 const DefaultReadBufferSizeBytes uint64 = 4 * 1024 * 1024  // 4Mb
+// MaxBufferSizeBytes is the largest read or write buffer size that NewSimpleDB accepts
+const MaxBufferSizeBytes uint64 = math.MaxInt32
 
 var ErrNotFound = errors.New("ErrNotFound")
 var ErrNotOpenedYet = errors.New("database has not been opened yet, please call Open() first")
@@ -393,12 +396,18 @@ func NewSimpleDB(basePath string, extraOptions ...ExtraOption) (*DB, error) {
 		extraOption(extraOpts)
 	}
 
+	// the buffers are allocated much later, by the background goroutines: a size that no slice can have would stop the
+	// process at the first flush, on a workload that is perfectly fine
+	if extraOpts.writeBufferSizeBytes > MaxBufferSizeBytes || extraOpts.readBufferSizeBytes > MaxBufferSizeBytes {
+		return nil, fmt.Errorf("buffer sizes must not exceed %d bytes, write buffer: %d, read buffer: %d",
+			MaxBufferSizeBytes, extraOpts.writeBufferSizeBytes, extraOpts.readBufferSizeBytes)
+	}
+
 	cmp := skiplist.BytesComparator{}
 	mStore := memstore.NewMemStore()
 	rwLock := &sync.RWMutex{}
 	flusherChan := make(chan memStoreFlushAction)
-	// the done channels have room for their one signal: the background goroutines send it in a deferred call, and a
-	// deferred call that blocks would keep their panic (the way they stop the process on a failure) from ever getting out
+	// the done channels have room for their one signal, the background goroutines send it when they end regularly
 	doneFlushChan := make(chan bool, 1)
 	doneCompactionChan := make(chan bool, 1)
 	compactionTimerStopChannel := make(chan interface{}, 1)
